@@ -3,9 +3,17 @@ import LocustModel.Store.Spec
 import LocustModel.Lemmas.StoreWal
 import LocustModel.Lemmas.StoreDurableRun
 import LocustModel.Lemmas.StoreExample
+import LocustModel.Store.Interleave
+import LocustModel.Lemmas.StoreInterleave
 /-
   C18 — a finished flush leaves no garbage and unblocks ingestion.  Property theorems only.
   Histories are arbitrary lists of `Op` (any length, any planner choices, any sizes, any replay orders).
+
+  Second half (`C18_interleaved_…`, `C18_no_stuck_ingest`, `C18_force_flush_covers`): INTERLEAVED histories
+  (`Store/Interleave.lean`) — a flush is the sequence of its real steps, ingestion calls and force_flush requests may
+  happen between any two of them; the force_flush protocol of `enforce_wal_limit` (requests are TAKEN before the flush
+  starts and answered when it ends) and the two cooperating comparisons on the accounted log size (ingestion waits while
+  `wal_size > max`, the flush thread flushes when `wal_size > max`) are part of the model.
 -/
 namespace LM.C18
 open LM LM.Store
@@ -88,5 +96,161 @@ example : ∃ w, ParamsOk Ex.P0 ∧ HistWF Ex.opsB ∧ run Ex.P0 Ex.opsB (initWo
     fileNames (w.disk.parts (.user 1)) = [(2, "a"), (2, "b"), (3, "all")] ∧ w.disk.wal = [] ∧ w.mem.walSize = 0 ∧
     (w.disk.metaFile.map (fun mf => mf.parts (.user 1))) = some [⟨2, 0, 3, ["a", "b"]⟩, ⟨3, 3, 1, ["all"]⟩] :=
   ⟨_, Ex.P0_ok, Ex.opsB_wf, rfl, by decide, rfl, rfl, by decide⟩
+
+-- ================================================================================================ interleaved histories
+
+/-- The directory when a flush has completed (its last step `delete_wal_segments` ran) in ANY interleaved history:
+    no flush in flight; the ONLY log segments are those of the ingestion calls that returned since this flush froze the
+    buffers (ids `cursor, cursor+1, …`, as many as such calls) — every segment the flush captured is gone; the
+    accounted size is the size of exactly these segments; so if no call overlapped the flush there is no segment and
+    the accounted size is zero; the catalogue file exists, its cursor is `earliest`, and for every table the partition
+    files on disk are EXACTLY the files the catalogue file refers to (no file of a merged-away partition, no orphan). -/
+theorem C18_interleaved_clean (P : Params ν κ) (hP : ParamsOk P) (ops : List (IOp ν κ)) (hwf : IHistWF ops)
+    (iw : IWorld ν κ) (hrun : irun P (ops ++ [.flushGcWal]) = .ok iw) :
+    iw.fl = none ∧
+    iw.w.disk.wal.map (·.id) = List.range' iw.w.mem.cat.earliest (sinceFreeze ops) ∧
+    iw.w.mem.walSize = (iw.w.disk.wal.map (·.bytes)).sum ∧
+    (sinceFreeze ops = 0 → iw.w.disk.wal = [] ∧ iw.w.mem.walSize = 0) ∧
+    ∃ mf, iw.w.disk.metaFile = some mf ∧ mf.cursor = iw.w.mem.cat.earliest ∧
+      ∀ t, fileNames (iw.w.disk.parts t) = expectedFiles (mf.parts t) := by
+  have hwf' : IHistWF (ops ++ [.flushGcWal]) := by
+    intro op hop
+    rcases List.mem_append.mp hop with h | h
+    · exact hwf op h
+    · simp at h; subst h; trivial
+  obtain ⟨iw0, hrun0, hstep⟩ := irun_snoc P ops _ iw hrun
+  have hf0 := frame_run P hP ops hwf iw0 hrun0
+  -- shape of the last step
+  simp only [istep] at hstep
+  cases hfl : iw0.fl with
+  | none => rw [hfl] at hstep; cases hstep
+  | some f =>
+    rw [hfl] at hstep
+    simp only at hstep
+    split at hstep
+    · rename_i hst
+      have hmeta0 := ((hf0.flight f hfl).2.2.2.2 (Or.inr hst)).2
+      cases hstep
+      have hq : (⟨deleteWal iw0.w f.lo f.hi, none, iw0.pending, iw0.done ++ f.served⟩ : IWorld ν κ).fl = none := rfl
+      obtain ⟨pre, hd⟩ := (idurable_run P hP _ hwf' _ hrun).quiescent hq
+      have hf := (frame_run P hP _ hwf' _ hrun).quiet hq
+      rw [sinceFreeze_snoc] at hf
+      simp only [sfStep] at hf
+      have hids : (deleteWal iw0.w f.lo f.hi).disk.wal.map (·.id) =
+          List.range' (deleteWal iw0.w f.lo f.hi).mem.cat.earliest (sinceFreeze ops) := by
+        have := hd.wal.ids
+        simp only [walIds] at this
+        rw [this, hf]
+        simp
+      refine ⟨rfl, hids, hd.wal.size, ?_, ?_⟩
+      · intro h0
+        have hnil : (deleteWal iw0.w f.lo f.hi).disk.wal = [] := by
+          rw [h0] at hids
+          simpa using hids
+        exact ⟨hnil, by rw [hd.wal.size, hnil]; rfl⟩
+      · have hsome : (deleteWal iw0.w f.lo f.hi).disk.metaFile.isSome = true := by simpa [deleteWal] using hmeta0
+        cases hm : (deleteWal iw0.w f.lo f.hi).disk.metaFile with
+        | none => rw [hm] at hsome; cases hsome
+        | some mf =>
+          refine ⟨mf, rfl, ?_, fun t => ?_⟩
+          · have := hd.wal.cursor
+            rw [hm] at this
+            simpa using this
+          · have h1 := hd.files_exact t
+            have h2 := hd.metaEq
+            rw [hm] at h2
+            simp only [Option.getD_some] at h2
+            rw [h1, h2]
+    · cases hstep
+
+/-- File and segment counts stay bounded in interleaved histories too: at EVERY quiescent point the partition files
+    of a table are exactly the files of its catalogue entries, the catalogue in memory is the one in the catalogue
+    file, and the number of log segments is the number of ingestion calls since the last freeze. -/
+theorem C18_interleaved_bounded (P : Params ν κ) (hP : ParamsOk P) (ops : List (IOp ν κ)) (hwf : IHistWF ops)
+    (iw : IWorld ν κ) (hrun : irun P ops = .ok iw) (hq : iw.fl = none) :
+    (∀ t, fileNames (iw.w.disk.parts t) = expectedFiles (iw.w.mem.cat.parts t)) ∧
+    iw.w.mem.cat.parts = (iw.w.disk.metaFile.getD ⟨0, fun _ => []⟩).parts ∧
+    iw.w.disk.wal.length = sinceFreeze ops ∧
+    iw.w.mem.walSize = (iw.w.disk.wal.map (·.bytes)).sum := by
+  obtain ⟨pre, hd⟩ := (idurable_run P hP ops hwf iw hrun).quiescent hq
+  have hf := (frame_run P hP ops hwf iw hrun).quiet hq
+  refine ⟨fun t => hd.files_exact t, hd.metaEq, ?_, hd.wal.size⟩
+  have h := hd.wal.ids
+  have : (walIds iw.w.disk).length = iw.w.disk.wal.length := by simp [walIds]
+  rw [← this, h, hf]; simp
+
+/-- The log-size gate of ingestion cannot get stuck, for EVERY limit (0 included) and every accounted size (a size
+    exactly equal to the limit included).  In any reachable state of any interleaved history in which an ingestion
+    call would wait (`wal_size > max_wal_size_bytes`): the flush thread — alone, without any other thread moving —
+    first completes the flush it may be in the middle of (no step of it can fail, none changes the accounted size),
+    is then idle in a state where ITS OWN trigger condition holds (`wal_size > max_wal_size_bytes`, the same
+    comparison: the two sites agree on the boundary), so it starts the next flush, and that flush's freeze block
+    alone re-opens the gate. -/
+theorem C18_no_stuck_ingest (P : Params ν κ) (hP : ParamsOk P) (ops : List (IOp ν κ)) (hwf : IHistWF ops)
+    (iw : IWorld ν κ) (hrun : irun P ops = .ok iw) (fi : FlushIn ν) (hfi : FlushWF fi) (maxWalFiles : Nat)
+    (hwait : ingestWaits P iw) :
+    ∃ iwq iw', ifold P (match iw.fl with | none => [] | some f => finishOps f.stage fi) iw = .ok iwq ∧ iwq.fl = none ∧
+      flushTriggered P maxWalFiles iwq ∧
+      istep P iwq (.flushBegin iwq.pending.length) = .ok iw' ∧ ¬ ingestWaits P iw' := by
+  have hd := idurable_run P hP ops hwf iw hrun
+  have key : ∀ iwq : IWorld ν κ, iwq.fl = none → iwq.w.mem.walSize = iw.w.mem.walSize →
+      flushTriggered P maxWalFiles iwq ∧
+      ∃ iw', istep P iwq (.flushBegin iwq.pending.length) = .ok iw' ∧ ¬ ingestWaits P iw' := by
+    intro iwq hq hs
+    refine ⟨Or.inl (by rw [hs]; exact hwait), _, by simp only [istep, hq]; rfl, ?_⟩
+    simp [ingestWaits, freeze]
+  cases hfl : iw.fl with
+  | none =>
+    obtain ⟨h1, iw', h2, h3⟩ := key iw hfl rfl
+    exact ⟨iw, iw', rfl, hfl, h1, h2, h3⟩
+  | some f =>
+    obtain ⟨iwq, h0, hq, hs, _⟩ := flight_completes P hP iw f fi hfi hd hfl
+    obtain ⟨h1, iw', h2, h3⟩ := key iwq hq hs
+    exact ⟨iwq, iw', h0, hq, h1, h2, h3⟩
+
+/-- What an answered force_flush guarantees, in ANY interleaved history.  A request is recorded as `q` = the id the next
+    log segment would get at the moment the request was registered (every ingestion call that returned before has a
+    smaller id).  Once the request was answered (`q ∈ done`): the cursor has passed `q` — in memory at every later
+    moment, and whenever no flush is in flight also in the catalogue file, and no segment with an id below `q` is on
+    disk: everything acknowledged before the call is in partition files the catalogue refers to and its log segment
+    is gone.  (A request that arrives while a flush is past its freeze is therefore answered by a LATER flush.) -/
+theorem C18_force_flush_covers (P : Params ν κ) (hP : ParamsOk P) (ops : List (IOp ν κ)) (hwf : IHistWF ops)
+    (iw : IWorld ν κ) (hrun : irun P ops = .ok iw) (q : Nat) (hq : q ∈ iw.done) :
+    q ≤ iw.w.mem.cat.earliest ∧
+    (iw.fl = none → (∀ f ∈ iw.w.disk.wal, q ≤ f.id) ∧ q ≤ (iw.w.disk.metaFile.map (·.cursor)).getD 0) := by
+  have hf := frame_run P hP ops hwf iw hrun
+  have h1 := hf.done q hq
+  refine ⟨h1, fun hfl => ?_⟩
+  obtain ⟨pre, hd⟩ := (idurable_run P hP ops hwf iw hrun).quiescent hfl
+  constructor
+  · intro f hfm
+    have := (mem_ids_of_range hd.wal.ids f hfm).1
+    omega
+  · rw [hd.wal.cursor]; exact h1
+
+-- non-vacuity of C18_interleaved_clean / C18_force_flush_covers: the flush of `Ex.iopsFlush` overlaps two ingestion
+-- calls; when it has completed the two overlapped segments (ids 1, 2) are the only ones, the accounted size is theirs
+-- (20 + 5), the request (registered when the next id was 1) is answered and the cursor is 1
+example : ∃ iw, ParamsOk Ex.P0 ∧ IHistWF Ex.iopsFlush ∧ irun Ex.P0 Ex.iopsFlush = .ok iw ∧ iw.fl = none ∧
+    walIds iw.w.disk = [1, 2] ∧ iw.w.mem.walSize = 25 ∧ iw.done = [1] ∧ iw.w.mem.cat.earliest = 1 ∧
+    fileNames (iw.w.disk.parts (.user 1)) = [(0, "all")] :=
+  ⟨_, Ex.P0_ok, Ex.iopsFlush_wf, rfl, rfl, by decide, rfl, rfl, rfl, by decide⟩
+
+-- a request that arrives while the flush is past its freeze stays pending when that flush ends
+example : ∃ iw, irun Ex.P0 Ex.iopsLate = .ok iw ∧ iw.done = [1] ∧ iw.pending = [2] ∧ walIds iw.w.disk = [1] :=
+  ⟨_, rfl, rfl, rfl, by decide⟩
+
+-- non-vacuity of C18_no_stuck_ingest: limit 0, one segment of 10 bytes: ingestion would wait
+example : ∃ iw, irun Ex.P0 [.ingest Ex.r1 10] = .ok iw ∧ ingestWaits Ex.P0 iw :=
+  ⟨_, rfl, by decide⟩
+
+/-- Sensitivity: `C18_force_flush_covers` depends on the requests being TAKEN BEFORE the flush starts.  In the variant
+    machine that answers every request pending when a flush ENDS, the request registered after the freeze (`q = 2`:
+    segment 1 was acknowledged before it) is answered by the earlier flush although the cursor is 1 and segment 1 is
+    still on disk. -/
+theorem C18_force_flush_must_be_taken_before_flush :
+    ∃ iw : IWorld Nat Nat, ifoldVar false true Ex.P0 Ex.iopsLate (iinit Ex.P0) = .ok iw ∧ iw.fl = none ∧
+      2 ∈ iw.done ∧ iw.w.mem.cat.earliest = 1 ∧ walIds iw.w.disk = [1] :=
+  ⟨_, rfl, rfl, by decide, rfl, by decide⟩
 
 end LM.C18
